@@ -152,13 +152,17 @@ def _split_args(s):
             cur += ch
     if cur.strip():
         out.append(cur.strip())
-    return out
+    return [a for a in out if not a.startswith("'")]   # lifetimes are irrelevant here
 
 
 def _unblanket(name, rargs):
     """the blanket impls  T: TryInto<U> / Into<U>  forward to  U::try_from(T) / U::from(T): name the real target"""
     if not rargs:
         return name
+    if name.endswith('PartialEq<&B> for &A>::eq') or name.endswith('PartialEq<&B> for &A>::ne'):
+        a = _split_args(rargs)
+        if len(a) == 2:
+            return f'<{a[0]} as std::cmp::PartialEq<{a[1]}>>::{name.rsplit("::", 1)[-1]}'
     if name.endswith('TryInto<U>>::try_into') or name.endswith('Into<U>>::into'):
         a = _split_args(rargs)
         if len(a) == 2:
